@@ -765,3 +765,163 @@ def opaque_sym(op, *parts):
     """Deterministic opaque integer/real identity (global value numbering): same operator on the same symbolic
     operands gives the same atom."""
     return LinExpr("%s[%s]" % (op, ",".join(repr(p) for p in parts)))
+
+
+# ----------------------------------------------------------------------------- evaluation of extracted index arithmetic
+def _parse_linexpr(s):
+    """Parse the repr of a LinExpr (sum of [coef*]atom terms and a constant; an atom is a name or op[arg,...] with LinExpr arguments)
+    into a small tree: ('sum', [(coef, node), ...], const); node = ('atom', name) | ('op', name, [subtrees])."""
+    pos = [0]
+
+    def peek():
+        return s[pos[0]] if pos[0] < len(s) else ""
+
+    def number():
+        j = pos[0]
+        while pos[0] < len(s) and (s[pos[0]].isdigit() or s[pos[0]] in "/."):
+            pos[0] += 1
+        return Fraction(s[j:pos[0]])
+
+    def name():
+        j = pos[0]
+        while pos[0] < len(s) and (s[pos[0]].isalnum() or s[pos[0]] in "_$.:#@"):
+            pos[0] += 1
+        return s[j:pos[0]]
+
+    def atom():
+        nm = name()
+        if not nm:
+            raise ValueError("atom expected at %d in %r" % (pos[0], s))
+        if peek() == "[":
+            pos[0] += 1
+            args = [expr()]
+            while peek() == ",":
+                pos[0] += 1
+                args.append(expr())
+            if peek() != "]":
+                raise ValueError("] expected")
+            pos[0] += 1
+            return ("op", nm, args)
+        return ("atom", nm)
+
+    def expr():
+        terms, const = [], Fraction(0)
+        first = True
+        while True:
+            sign = 1
+            if peek() == "+":
+                pos[0] += 1
+            elif peek() == "-":
+                pos[0] += 1
+                sign = -1
+            elif not first:
+                break
+            first = False
+            if peek().isdigit():
+                k = number()
+                if peek() == "*":
+                    pos[0] += 1
+                    terms.append((sign * k, atom()))
+                else:
+                    const += sign * k
+            else:
+                terms.append((Fraction(sign), atom()))
+            if peek() not in "+-" or peek() == "":
+                break
+        return ("sum", terms, const)
+    t = expr()
+    if pos[0] != len(s):
+        raise ValueError("trailing text in %r at %d" % (s, pos[0]))
+    return t
+
+
+def eval_linexpr(le, env):
+    """Value of a symbolic integer/real expression (LinExpr with opaque operator atoms) for concrete values of its free atoms.  The
+    operators are the exact Python/NumPy ones the interpreter recorded (int = truncation toward zero, floordiv, ceil, floor, round = banker's,
+    log2, pow, mul, div, max, min).  Raises KeyError for a free atom without a value, ValueError for an operator it does not know."""
+    import math
+
+    def ev(t):
+        if t[0] == "sum":
+            return sum((c * ev(n) for c, n in t[1]), t[2])
+        if t[0] == "atom":
+            return env[t[1]]
+        op, args = t[1], [ev(a) for a in t[2]]
+        if op == "mul":
+            r = 1
+            for a in args:
+                r = r * a
+            return r
+        if op == "div":
+            return Fraction(args[0]) / Fraction(args[1]) if all(isinstance(a, (int, Fraction)) for a in args) else args[0] / args[1]
+        if op == "int":
+            return int(args[0])
+        if op == "floordiv":
+            return args[0] // args[1]
+        if op == "mod":
+            return args[0] % args[1]
+        if op == "ceil":
+            return math.ceil(args[0])
+        if op == "floor":
+            return math.floor(args[0])
+        if op == "round":
+            return round(args[0])
+        if op == "log2":
+            return math.log2(args[0])
+        if op == "pow":
+            return args[0] ** args[1]
+        if op in ("max", "maximum"):
+            return max(args)
+        if op in ("min", "minimum"):
+            return min(args)
+        if op == "abs":
+            return abs(args[0])
+        raise ValueError("operator %s" % op)
+    return ev(_parse_linexpr(repr(LinExpr(le))))
+
+
+def free_atoms(le):
+    out = set()
+
+    def walk(t):
+        if t[0] == "sum":
+            for _, n in t[1]:
+                walk(n)
+        elif t[0] == "atom":
+            out.add(t[1])
+        else:
+            for a in t[2]:
+                walk(a)
+    walk(_parse_linexpr(repr(LinExpr(le))))
+    return out
+
+
+def compare_index_exprs(a, b, samples=None):
+    """('equal', None) when the two symbolic integers are the same expression; ('differ', witness) when evaluating both for some value
+    of the free atoms gives different integers (constant folding of the two extracted expressions -- no repository code runs);
+    ('unknown', reason) otherwise."""
+    a, b = LinExpr(a), LinExpr(b)
+    if a == b:
+        return "equal", None
+    try:
+        fa = free_atoms(a) | free_atoms(b)
+    except ValueError as ex:
+        return "unknown", str(ex)
+    if len(fa) > 2:
+        return "unknown", "more than two free quantities: %s" % sorted(fa)
+    fa = sorted(fa)
+    grid = samples or list(range(1, 70)) + [100, 127, 128, 129, 255, 256, 257, 1000, 1023, 1024, 1025, 4683, 4684]
+    import itertools
+    tried = 0
+    for vals in itertools.product(grid, repeat=len(fa)):
+        env = dict(zip(fa, vals))
+        try:
+            va, vb = eval_linexpr(a, env), eval_linexpr(b, env)
+        except (ValueError, KeyError, ZeroDivisionError, OverflowError, TypeError) as ex:
+            return "unknown", "%s" % ex
+        tried += 1
+        if va != vb:
+            return "differ", "%s: %s vs %s" % (", ".join("%s=%s" % kv for kv in env.items()), va, vb)
+        if tried > 6000:
+            break
+    return "unknown", "equal on %d sampled values, not proved equal" % tried
